@@ -32,6 +32,14 @@ GUARD_CFG = "--cfg fuse_backend_rs_verif"
 
 ENV_BASE = dict(os.environ)
 ENV_BASE.update({"CARGO_NET_OFFLINE": "true", "CARGO_TERM_COLOR": "never"})
+# The toolchains and the offline crate cache live under root's home. Do not depend on $HOME pointing there:
+# with another HOME rustup finds no default toolchain ("rustup could not choose a version of cargo to run")
+# and cargo finds no registry cache.
+for _var, _path in (("RUSTUP_HOME", "/root/.rustup"), ("CARGO_HOME", "/root/.cargo")):
+    if _var not in ENV_BASE and os.path.isdir(_path):
+        ENV_BASE[_var] = _path
+if os.path.isdir("/root/.cargo/bin") and "/root/.cargo/bin" not in ENV_BASE.get("PATH", "").split(":"):
+    ENV_BASE["PATH"] = "/root/.cargo/bin:" + ENV_BASE.get("PATH", "/usr/local/bin:/usr/bin:/bin")
 
 
 def log(msg):
